@@ -2,6 +2,7 @@ import AquaVerif.Proofs.CatalogueCfg
 import AquaVerif.Proofs.CropCalendar
 import AquaVerif.Proofs.PrepareGdd
 import AquaVerif.Proofs.PrepareGddOrder
+import AquaVerif.Proofs.PrepareGddTotal
 import AquaVerif.Proofs.RunClosedRw
 import AquaVerif.Proofs.CropFull
 import AquaVerif.Proofs.Run
@@ -402,6 +403,21 @@ theorem converted_calendar_single_season {toInt : α → Int} {cropType : Nat} {
     (hk : uniqLabels (rows.map (·.1)) = [k]) (hs : sumFun = 0 ∨ sumFun = 1) (a : Stage) :
     iloc (cumsum (seasonGdd rows k)) (toInt (a.cd s)) = some (a.val g) :=
   prepareGdd_single_season h hk hs a
+
+/-- **round trip of a converted threshold** (single season, non-negative daily growing degrees): the thermal
+threshold `prepare_gdd` stores for a stage read at calendar-day position `i = int(stageCD) ≥ 0` is, by the Mode-2
+search (`firstAbove` = first position with cumulative growing degrees STRICTLY above the threshold), first exceeded at
+position `i + 1`, provided day `i + 1` has positive growing degrees: the converted calendar reproduces the calendar
+day it came from plus one. -/
+theorem converted_threshold_round_trips {toInt : α → Int} {cropType : Nat} {hasCol : Bool} {sumFun : Nat}
+    {s : GddStagesIn α} {old g : GddStages α} {rows : List (Option Nat × α)} {k : Option Nat}
+    (h : prepareGdd toInt cropType hasCol sumFun s old rows = .ok g)
+    (hk : uniqLabels (rows.map (·.1)) = [k]) (hs : sumFun = 0 ∨ sumFun = 1) (a : Stage)
+    (hg : ∀ r ∈ rows, 0 ≤ r.2) (ha : 0 ≤ toInt (a.cd s))
+    (hi : (toInt (a.cd s)).toNat + 1 < (seasonGdd rows k).length)
+    (hpos : 0 < (seasonGdd rows k)[(toInt (a.cd s)).toNat + 1]) :
+    firstAbove (cumsum (seasonGdd rows k)) (a.val g) = (toInt (a.cd s)).toNat + 1 :=
+  Aqua.converted_threshold_round_trip h hk hs a hg ha hi hpos
 
 /-- **Finding (modelled faithfully, proved of the model).**  After a successful conversion the
 calendar type is 2 but `YldForm` and the flowering length still hold their *calendar-day* values
